@@ -386,6 +386,61 @@ def run(F, chk):
                               (fn["name"], c, b["owner"].split("::")[-1], "/".join(sorted(gate))))
     chk.floor(R6, 0)  # (the discovery of flag-gated arrays has its own floor; a restructured deletion path may index none of them)
 
+    # ---------------------------------------------------------------- R9.7
+    R7 = chk.rule("R9.7", "work that has to happen for every element is not placed where short-circuit evaluation can skip it: a call of a "
+                          "non-const method of a block part is neither the right operand of `acc = acc || call` / `acc && call`, nor "
+                          "made from the predicate of std::any_of / all_of / none_of / find_if (which stop at the first hit) — the "
+                          "strip-to-triangle conversion of the skin partitions in front of a vertex deletion is such work")
+    SHORT_ALGOS = ("any_of", "all_of", "none_of", "find_if", "find_if_not")
+
+    def _mutating_calls(e):
+        out = []
+        for x in walk(e):
+            if x["k"] == "Call" and not x.get("ext") and x.get("fid") in F.fns and is_node(x.get("recv")):
+                g = F.fns[x["fid"]]
+                if g.get("cls") and not g.get("const") and not g.get("static") and g.get("short") not in ("begin", "end", "size"):
+                    out.append(x)
+        return out
+
+    n7 = 0
+    for fn in sorted(F.fns.values(), key=lambda f: f["id"]):
+        if not fn.get("body") or fn.get("tmpl") == "pattern" or not ((fn.get("file") or "").startswith("src/") or fn.get("lambda_parent")):
+            continue
+        if not (fn.get("cls") or fn.get("lambda_parent")):
+            continue
+        for n in walk(fn["body"]):
+            if n["k"] == "Assign" and n["op"] == "=" and is_node(n["r"]) and n["r"]["k"] == "Binary" and n["r"]["op"] in ("||", "&&") \
+                    and is_node(n["l"]) and n["l"]["k"] == "Ref":
+                lhs, left = n["l"], n["r"]["l"]
+                while is_node(left) and left["k"] == "Cast":
+                    left = left["e"]
+                if is_node(left) and left["k"] == "Ref" and left.get("id") == lhs.get("id"):
+                    calls = _mutating_calls(n["r"]["r"])
+                    n7 += 1
+                    chk.instance(R7, ok=not calls, sample={"fn": fn["name"], "accumulates": show(n)[:80]})
+                    for c in calls[:1]:
+                        chk.violation("R9.7", "C09/R9.7:%s:%s" % (fn["name"].split("(")[0], c.get("short")), where(fn, n),
+                                      "%s accumulates with `%s`: once `%s` is true the call of %s is skipped for every later element, "
+                                      "although it changes the element it is called on" % (fn["name"], show(n)[:70], lhs["name"], c.get("fn")))
+            if n["k"] == "Call" and n.get("ext") and n.get("short") in SHORT_ALGOS:
+                for a in n.get("args", []):
+                    b = a
+                    while is_node(b) and b["k"] in ("Cast", "Construct") and (b.get("e") is not None or len(b.get("args", [])) == 1):
+                        b = b["e"] if b.get("e") is not None else b["args"][0]
+                    if is_node(b) and b["k"] == "Lambda" and b.get("fid") in F.fns:
+                        lam = F.fns[b["fid"]]
+                        pids = {p_["id"] for p_ in lam.get("params", [])}
+                        calls = [c for c in _mutating_calls(lam.get("body") or {}) if any(
+                            y["k"] == "Ref" and y.get("id") in pids for y in walk(c["recv"]))]
+                        n7 += 1
+                        chk.instance(R7, ok=not calls, sample={"fn": fn["name"], "algorithm": n["short"]})
+                        for c in calls[:1]:
+                            chk.violation("R9.7", "C09/R9.7:%s:%s:%s" % (fn["name"].split("(")[0], n["short"], c.get("short")), where(fn, n),
+                                          "%s calls %s, which changes the element, from the predicate of std::%s: the algorithm stops at "
+                                          "the first element for which the predicate decides, so the remaining elements are never "
+                                          "processed" % (fn["name"], c.get("fn"), n["short"]))
+    chk.floor(R7, 0)
+
     chk.assumptions += ["order preservation inside EraseVectorIndices, triangle re-indexing and partition re-fitting are value-level (C18-style) and not decided"]
     chk.extra["explanation"] = ("coverage of every per-vertex array by the deletion notification, override chain, orchestrator "
                                 "coverage and counter refresh; index-collapse arithmetic is not decided")
